@@ -23,6 +23,7 @@ RULE = (
     "and SSC simfiles and SSC charts into TimingData; non-trivial = no zero operand / non-empty list; distinct = "
     "distinct canonical JSON of the case"
 )
+RULE += " " + 'Round 6: every carrier is read a second time after the lists of the first TimingData objects were edited in place (append, delete) - including TimingData(simfile, chart without timing data): the second reading must equal the source again.'
 ASSUMPTIONS = [
     "CPython Fraction and Decimal arithmetic is the reference",
     "msdparser tokenizer is trusted for the simfile -> TimingData path",
